@@ -260,8 +260,9 @@ def _lookups(ctx) -> list[Inst]:
                                 if d.kind == 'stmt' and isinstance(d.ast, ast.Assign):
                                     keytxt += ' ' + stmt_text(d.ast.value)
                                 if d.kind == 'stmt' and isinstance(d.ast, ast.Assign) \
-                                        and isinstance(d.ast.targets[0], ast.Tuple):
-                                    keytxt += ' ' + nm.id
+                                        and isinstance(d.ast.targets[0], ast.Tuple) \
+                                        and 'process_step_expression' in stmt_text(d.ast.value):
+                                    keytxt += ' attack_step_name'
                 if any(k in keytxt for k in REFERENCE_KEYS):
                     var = n.targets[0].id
                     what = [k for k in REFERENCE_KEYS if k in keytxt][0].strip("[]'")
